@@ -1,13 +1,32 @@
 import Rooc.Wire
-import Rooc.Oracle
+import Rooc.WireSolve
+import Rooc.SolveOracle
+import Rooc.Drv.C04
 namespace Rooc.Drv.C20
-open Rooc Sexp
+open Rooc Sexp SolverWrap
 
-/-- model requests for C20 (run at `Float` for the exact diff, at `Ext Rat` as oracle). -/
+/-- model requests for C20: `collect_good_lp_duals` and the Clarabel wrapper around good_lp's raw duals. -/
 def handle (α : Type) [Arith α] [Wire α] : List Sexp → Sexp
-  | _ => app "err" [.atom "bad-request"]
+  | [.atom "collect-duals", .list ds] =>
+    match (decPairs ds : Option (List (String × α))) with
+    | some ds => app "ok" (encPairs (collectDuals ds))
+    | none => app "err" [.atom "decode"]
+  | [.atom "clarabel-wrap", lm, out] =>
+    match (LinModel.dec lm : Option (LinModel α)), (ClarabelOutcome.dec out : Option (ClarabelOutcome α)) with
+    | some lm, some out => (wrapClarabel lm out).enc lm.vars
+    | _, _ => app "err" [.atom "decode"]
+  | args => Drv.C04.handle α args
 
-/-- exact oracle: the PROPERTY evaluated on the implementation's own answer. -/
+/-- exact oracle: reported shadow prices against exact finite differences of the certified optimum. -/
 def oracle : List Sexp → Sexp
+  | [.atom "shadow", lm, res] =>
+    match (LinModel.dec lm : Option (LinModel (Ext Rat))), (ImplRes.dec res : Option (ImplRes (Ext Rat))) with
+    | some lm, some r => SolveOracle.checkShadow lm r
+    | _, _ => app "err" [.atom "decode"]
+  | [.atom "shadow-compiled", src, comp, res] =>
+    match (LinModel.dec src : Option (LinModel (Ext Rat))), (LinModel.dec comp : Option (LinModel (Ext Rat))),
+          (ImplRes.dec res : Option (ImplRes (Ext Rat))) with
+    | some src, some comp, some r => SolveOracle.checkShadowCompiled src comp r
+    | _, _, _ => app "err" [.atom "decode"]
   | _ => app "err" [.atom "bad-request"]
 end Rooc.Drv.C20
